@@ -182,7 +182,7 @@ def make_request(rnd, ctx, J, CH):
     """Build a request dict (JSON-able) from the current model state."""
     network = ctx.network
     fmin, fmax, dust = fee_limits(network)
-    min_confirms = rnd.choice([0, 1, 1])
+    min_confirms = rnd.choice([0, 1, 1, 1, 3, 6])
     spendable = J.wallet_unspent(min_confirms)
     bal = sum(u['value'] for u in spendable.values())
     from vf import wallet_env
@@ -304,9 +304,13 @@ def run_wallet(case, col):
         col.violation(None, 'wallet payment addresses differ from the reference derivation (see C09)', case, have[:3], addrs[:3])
         return
     eq = rnd.choice([10 ** 5, 10 ** 6]) * scale
+    last_op = None
     for j in range(n_utxo):
         v = rnd.choice([eq, eq, 600, 999, 1000, 1001, 5000 * scale, 10 ** 7 * scale + j, 10 ** 8 * scale + j, rnd.randrange(2000, 10 ** 7) * scale])
-        CH.fund(rnd.choice(addrs), v, network, confirmed=rnd.random() < 0.8)
+        # several outputs of one funding transaction (same txid) and funding at different depths
+        last_op = CH.fund(rnd.choice(addrs), v, network, confirmed=rnd.random() < 0.8, same_tx_as=last_op if rnd.random() < 0.35 else None)
+        if rnd.random() < 0.3:
+            CH.mine(rnd.choice([1, 2, 5]))
     try:
         w.utxos_update()
     except Exception as e:
